@@ -17,11 +17,16 @@ Bad(e) ==
   \cup (IF e.reached /\ ~OpenAtHttp(ms) /\ e.user # e.wantUser THEN {"G_C05_UserIsTheConfirmedOne"} ELSE {})
   \cup (IF e.scheme = "none" /\ ~OpenAtHttp(ms) /\ ~(e.status = 401 /\ Range(e.challenges) = Challenges(ms)) THEN {"G_C05_ChallengePerScheme"} ELSE {})
   \cup (IF e.panicked THEN {"G_C10_NoPanic"} ELSE {})
+\* a tunnel opened with confirmed credentials acts for that user at every packet it receives, whatever other requests
+\* (other users, failed or missing credentials) the gateway served in between
+BadTun(e) == IF \E k \in 1..Len(e.seen) : e.seen[k] # e.confirmed THEN {"G_C05_TunnelUserIsTheConfirmedOne"} ELSE {}
+IsTun == Line.ev = "tunuser"
 TInit == /\ l = 1 /\ viol = {} /\ cover = {} /\ m = {"openid"} /\ r = [scheme |-> "none", wellFormed |-> FALSE, confirmed |-> FALSE]
          /\ reached = TRUE /\ jar = FALSE /\ n = 1
 TNext == /\ l <= Len(TraceLog)
-         /\ viol' = viol \cup {<<l, g, Line.cls, Line.authz>> : g \in Bad(Line)}
-         /\ cover' = cover \cup {<<Line.cls, Line.authz, Line.reached>>} \cup (IF Len(Line.prior) > 0 THEN {<<"after", Line.prior[Len(Line.prior)], Line.authz, Line.cookies > 0>>} ELSE {})
+         /\ viol' = viol \cup (IF IsTun THEN {<<l, g, Line.cls, Line.transport>> : g \in BadTun(Line)} ELSE {<<l, g, Line.cls, Line.authz>> : g \in Bad(Line)})
+         /\ cover' = cover \cup (IF IsTun THEN {<<"tunuser", Line.cls, Line.transport, Line.scheme>>}
+                                  ELSE {<<Line.cls, Line.authz, Line.reached>>} \cup (IF Len(Line.prior) > 0 THEN {<<"after", Line.prior[Len(Line.prior)], Line.authz, Line.cookies > 0>>} ELSE {}))
          /\ l' = l + 1 /\ UNCHANGED <<m, r, reached, jar, n>>
 TSpec == TInit /\ [][TNext]_tvars
 AtEnd == l = Len(TraceLog) + 1 =>
